@@ -33,6 +33,7 @@ type connPlan struct {
 	segs         []segPlan
 	fin          int // -1: no FIN; n >= 0: FIN carrying n bytes
 	forceISS     int64
+	carry        int // 1: steer the send sequence space, 2: the IP id, 3: both, so that the ACK of the first data segment has a checksum sum whose fold carries again
 	// client state
 	phase   int
 	srvSeq  uint32 // sequence number of the server's SYN-ACK
@@ -115,6 +116,13 @@ func (r *canRun) frame(fr []byte, createsState bool, src, dst net.IP, sp, dp uin
 			if !t.tcpCsumOK {
 				r.viol("tx-tcp-checksum", hx(f))
 			}
+			ipc, tcpc := carriesTwice(t.raw)
+			if ipc {
+				carryIPSeen++
+			}
+			if tcpc {
+				carryTCPSeen++
+			}
 		}
 	}
 	evs := r.lab.ev.From(ev0)
@@ -187,6 +195,35 @@ func (r *canRun) step(c *connPlan) {
 			tcb := r.lab.c.VerifLookup(c.peer, my, c.sport, c.dport)
 			if tcb != nil {
 				c.srvSeq = tcb.SndNxt - 1
+			}
+		}
+		if c.carry != 0 && len(c.segs) > 0 && c.segs[0].n > 0 && len(txs[0].raw) >= 40 {
+			// the next frame this connection emits is the ACK of the first data segment: steer the values the
+			// implementation draws at random (ISS, IP id) so that the 16-bit fold of its checksum sums carries twice
+			raw := txs[0].raw
+			w := func(b []byte, i int) uint32 { return uint32(b[i])<<8 | uint32(b[i+1]) }
+			m4, p4 := my.To4(), c.peer.To4()
+			addr := w(m4, 0) + w(m4, 2) + w(p4, 0) + w(p4, 2)
+			if c.carry&1 != 0 {
+				ack := c.isn + 1 + uint32(c.segs[0].n)
+				b := addr + 6 + 20 + uint32(c.dport) + uint32(c.sport) + 0xffff + ack>>16 + ack&0xffff + 0x5010 + w(raw, 20+14)
+				nxt := uint32(0xffff)<<16 | (0xffff - b&0xffff)
+				// this implementation's SYN-ACK carries ISS+1 and leaves SND.NXT at ISS+2
+				if r.lab.c.VerifRebaseISS(c.peer, my, c.sport, c.dport, nxt-2) {
+					r.ops = append(r.ops, fmt.Sprintf("rb:%s:%d:%s:%d:%d", ip4(c.peer), c.sport, ip4(my), c.dport, nxt-2))
+					r.outs = append(r.outs, "rb")
+					if tcb := r.lab.c.VerifLookup(c.peer, my, c.sport, c.dport); tcb != nil {
+						c.srvSeq = tcb.SndNxt - 1
+					}
+				}
+			}
+			if c.carry&2 != 0 {
+				b := uint32(0x4500) + 40 + 0x8006 + addr
+				id := uint32(c.isn)<<16 | (0xffff - b&0xffff)
+				if r.lab.c.VerifSetID(c.peer, my, c.sport, c.dport, id) {
+					r.ops = append(r.ops, fmt.Sprintf("ri:%s:%d:%s:%d:%d", ip4(c.peer), c.sport, ip4(my), c.dport, id))
+					r.outs = append(r.outs, "ri")
+				}
 			}
 		}
 		c.nextSeq = c.isn + 1
@@ -353,6 +390,37 @@ func runScenario(arp int, conns []*connPlan, sched []int, noise [][]byte) {
 	r.finish()
 }
 
+var carryIPSeen, carryTCPSeen int
+
+// carriesTwice: for an emitted IP packet, whether the sum of the IPv4 header words / of the TCP pseudo header and
+// segment words (checksum fields left out) is one whose first 16-bit fold produces a carry of its own
+func carriesTwice(ip []byte) (bool, bool) {
+	if len(ip) < 40 {
+		return false, false
+	}
+	twice := func(s uint32) bool { return s>>16+s&0xffff > 0xffff }
+	var a uint32
+	for i := 0; i < 20; i += 2 {
+		if i != 10 {
+			a += uint32(ip[i])<<8 | uint32(ip[i+1])
+		}
+	}
+	seg := ip[20:]
+	b := uint32(6) + uint32(len(seg))
+	for i := 12; i < 20; i += 2 {
+		b += uint32(ip[i])<<8 | uint32(ip[i+1])
+	}
+	for i := 0; i+1 < len(seg); i += 2 {
+		if i != 16 {
+			b += uint32(seg[i])<<8 | uint32(seg[i+1])
+		}
+	}
+	if len(seg)%2 == 1 {
+		b += uint32(seg[len(seg)-1]) << 8
+	}
+	return twice(a), twice(b)
+}
+
 func plan(peer net.IP, sport, dport uint16, isn uint32, segs []segPlan, fin int, force int64) *connPlan {
 	return &connPlan{peer: peer, sport: sport, dport: dport, isn: isn, segs: segs, fin: fin, forceISS: force}
 }
@@ -396,6 +464,21 @@ func genC14(tier string, seed uint64) {
 			}
 		}
 	}
+	// 2b. drawn values for which the checksum sums need more than one fold (steered through the hooks): about one
+	// emitted frame in 10^4 is of this kind, so random draws do not reach it
+	for i, isn := range []uint32{0, 77, 1<<32 - 2, 0x7fff0000, 0xabcdef01, 0x0000ffff} {
+		for ci, sp := range [][]segPlan{{{1, true}}, {{2, false}, {3, true}}, {{1460, true}}, {{999, false}, {1, true}}} {
+			for _, carry := range []int{1, 2, 3} {
+				if tier != "thorough" && (i+ci+carry)%2 == 0 {
+					continue
+				}
+				pl := plan([]net.IP{p1, p2, stdPeers[4]}[(i+ci)%3], 43000+uint16(i*7+ci), undecodedPorts[(i+ci)%len(undecodedPorts)], isn, sp, []int{-1, 0, 2}[(i+carry)%3], -1)
+				pl.carry = carry
+				runScenario(1, []*connPlan{pl}, nil, nil)
+			}
+		}
+	}
+	fmt.Fprintf(out, "#stat c14_frames_ip_sum_folds_twice %d\n#stat c14_frames_tcp_sum_folds_twice %d\n", carryIPSeen, carryTCPSeen)
 	// 3. no ARP entry / route fallback
 	runScenario(0, []*connPlan{plan(p1, 42000, 8080, 7, []segPlan{{3, true}}, 0, -1)}, nil, nil)
 	runScenario(2, []*connPlan{plan(p1, 42001, 8080, 7, []segPlan{{3, true}}, 0, -1)}, nil, nil)
@@ -560,6 +643,15 @@ func replayCan(l string) {
 			r.lab.c.VerifRebaseISS(net.IP(unhx(p[1])), net.IP(unhx(p[3])), uint16(sp), uint16(dp), uint32(iss))
 			r.ops = append(r.ops, op)
 			r.outs = append(r.outs, "rb")
+		case "ri":
+			var sp, dp int
+			var id uint64
+			fmt.Sscan(p[2], &sp)
+			fmt.Sscan(p[4], &dp)
+			fmt.Sscan(p[5], &id)
+			r.lab.c.VerifSetID(net.IP(unhx(p[1])), net.IP(unhx(p[3])), uint16(sp), uint16(dp), uint32(id))
+			r.ops = append(r.ops, op)
+			r.outs = append(r.outs, "ri")
 		}
 	}
 	// a literal replay re-derives iss/id from the fresh run, so the op list is re-emitted as run
